@@ -772,8 +772,7 @@ func (w *World) zeroExcludedAt(f *ssa.Function, h *ssa.BasicBlock) bool {
 		_, ok := basePtr(v).(*ssa.Parameter)
 		return ok
 	}
-	for _, dg := range w.guardsAtDeep(f, h) {
-		g := dg.Guard
+	excludes := func(g Guard) bool {
 		switch c := g.Cond.(type) {
 		case *ssa.Call:
 			n := w.calleeName(c)
@@ -784,16 +783,40 @@ func (w *World) zeroExcludedAt(f *ssa.Function, h *ssa.BasicBlock) bool {
 			call, isC := c.X.(*ssa.Call)
 			k, isK := c.Y.(*ssa.Const)
 			if !isC || !isK || ci(k) != 0 {
-				continue
+				return false
 			}
 			n := w.calleeName(call)
 			if n != "(*Decimal).Sign" && n != "(*BigInt).Sign" || !isParamBased(call.Common().Args[0]) {
-				continue
+				return false
 			}
 			if (c.Op == token.EQL && !g.Val) || (c.Op == token.NEQ && g.Val) {
 				return true
 			}
 		}
+		return false
+	}
+	for _, dg := range w.guardsAtDeep(f, h) {
+		if excludes(dg.Guard) {
+			return true
+		}
+	}
+	// the test may be one half of an earlier `A && zero` case that was not taken, with A known here
+	// (switch { case diff < 0 && d.IsZero(): … case diff < 0: <here> }): every way to be here that is not
+	// contradictory excludes zero
+	if alts := feasibleAlternatives(guardAlternativesDeep(h)); len(alts) > 0 {
+		all := true
+		for _, alt := range alts {
+			found := false
+			for _, g := range alt {
+				if excludes(g) {
+					found = true
+				}
+			}
+			if !found {
+				all = false
+			}
+		}
+		return all
 	}
 	return false
 }
